@@ -17,8 +17,9 @@ impl V {
     pub fn k_ord(&self) -> u8 {
         self.0 % 2
     }
-    pub fn k_partial_ord(&self) -> u8 {
-        self.0 % 3
+    /// partially ordered key: `v % 3 == 2` is incomparable and unequal to everything (NaN-like)
+    pub fn k_partial_ord(&self) -> Pv {
+        Pv(self.0 % 3 + 1)
     }
     pub fn k_eq(&self) -> u8 {
         self.0 / 2
@@ -76,6 +77,11 @@ pub fn kby_hash<H: Hasher>(a: &V, state: &mut H) {
 
 #[derive(Clone, Copy, Debug, Default)]
 pub struct Pv(pub u8);
+impl Hash for Pv {
+    fn hash<H: Hasher>(&self, h: &mut H) {
+        h.write_u8(self.0)
+    }
+}
 impl PartialEq for Pv {
     fn eq(&self, o: &Pv) -> bool {
         self.0 != 3 && o.0 != 3 && self.0 == o.0
